@@ -11,7 +11,8 @@ RULE = (
     "pairs: Hypothesis pairs (a,b) with common-prefix length k drawn uniformly in 0..32 / 0..128, "
     "plus groups of 3-6 addresses derived from each other (all pairs checked), under generated "
     "(salt, host bits 0..32, preserved-prefix mode default/empty/list/nested, preserved networks), half of them "
-    "starting from shaped addresses (IPv4-mapped / link-local / zero-run IPv6, IPv4 next to a preserved prefix); bulk: "
+    "starting from shaped addresses (IPv4-mapped / link-local / zero-run IPv6, IPv4 next to a preserved prefix); text: the same pair relation through the text layer "
+    "(address tokens, optionally with /len, through anonymize_ip_addr / anonymize_io, images parsed from the output); bulk: "
     "thousands of spread and dense addresses through ONE anonymizer, level-by-level one-to-one check over the whole set; "
     "exh_real: real IpAnonymizer/IpV6Anonymizer with B = 32 - w host bits, ALL 2^w values of the "
     "anonymized part, level-by-level function+injectivity check (equivalent to all pairs); exh_generic: "
@@ -224,7 +225,55 @@ def check_bulk(case, ev):
     return None
 
 
-REPLAY = {"bulk": check_bulk, "bulk_long": check_bulk, "pairs": check_group, "exh_real": check_exh_real, "exh_generic": check_exh_generic}
+def check_text_pairs(case, ev):
+    """The pair relation through the TEXT layer: addresses written as tokens (optionally with a /len
+    suffix) in lines handled by anonymize_ip_addr or FileAnonymizer.anonymize_io; images are parsed
+    back from the output.  Mask-shaped values and members of preserved networks are left alone by the
+    text layer by design and are not generated.  case: {fam, cfg, toks:[[int, suffix]], via}"""
+    import ipaddress
+
+    from netconan.ip_anonymization import anonymize_ip_addr
+
+    fam, cfg, toks = case["fam"], case["cfg"], case["toks"]
+    W = 32 if fam == 4 else 128
+    mk_text = (lambda n: G.v4_canon(n)) if fam == 4 else (lambda n: str(ipaddress.IPv6Address(n)))
+    line = " ".join(mk_text(n) + suf for n, suf in toks)
+    if case["via"] == "line":
+        an, exc = guarded(G.mk, cfg, fam)
+        if exc is not None:
+            return core.exc_finding(exc, case, "ctor/")
+        out, exc = guarded(anonymize_ip_addr, an, line)
+    else:
+        fa, exc = guarded(G.file_anonymizer, cfg)
+        if exc is not None:
+            return core.exc_finding(exc, case, "ctor/")
+        out, exc = guarded(core.run_io, fa, line + "\n")
+    if exc is not None:
+        return core.exc_finding(exc, case, "text/")
+    parts = out.split()
+    if len(parts) != len(toks):
+        return Finding("text/token-count-changed", "%r -> %r" % (line, out), case)
+    imgs = []
+    for (n, suf), t in zip(toks, parts):
+        addr = t[: len(t) - len(suf)] if suf else t
+        try:
+            imgs.append(int(ipaddress.ip_address(addr)))
+        except ValueError:
+            return Finding("text/output-token-not-an-address", "%r -> %r" % (line, out), case)
+    ev.case(case, len(toks) >= 2, ["text-v%d" % fam, "via-" + case["via"]] + (["with-len-suffix"] if any(sf for _, sf in toks) else []))
+    for i in range(len(toks)):
+        for j in range(i + 1, len(toks)):
+            k, k2 = G.cpl(toks[i][0], toks[j][0], W), G.cpl(imgs[i], imgs[j], W)
+            if k != k2:
+                return Finding(
+                    "text/cpl-not-preserved:v%d%s" % (fam, ":len-suffix" if toks[i][1] or toks[j][1] else ""),
+                    "cfg=%r via %s: %r -> %r: tokens %d and %d share %d bits, their images %d" % (cfg, case["via"], line, out.strip(), i, j, k, k2),
+                    case,
+                )
+    return None
+
+
+REPLAY = {"text": check_text_pairs, "bulk": check_bulk, "bulk_long": check_bulk, "pairs": check_group, "exh_real": check_exh_real, "exh_generic": check_exh_generic}
 
 # ---------------------------------------------------------------- generators
 
@@ -277,6 +326,28 @@ def t_bulk(shard, nshards, seed, ev, known, n=2, size=6000):
     # the first examples Hypothesis generates are the simplest ones (empty lists, zero values): skip them
     cases = core.collect_cases(_bulk_case(size), n + 3, seed)[3:]
     return core.enum_drive(cases, check_bulk, ev, known, "bulk")
+
+
+@st.composite
+def _text_case(draw):
+    fam = draw(st.sampled_from([4, 4, 6]))
+    W = 32 if fam == 4 else 128
+    cfg = draw(G.config(networks="never"))
+    a, b, k = draw(G.pair(W))
+    addrs = [a, b] + [draw(G.neighbour(draw(st.sampled_from([a, b])), W)) for _ in range(draw(st.integers(0, 2)))]
+    toks = []
+    for n in addrs:
+        if fam == 4 and G.is_mask(n):
+            continue
+        suf = ""
+        if draw(st.integers(0, 3)) == 0:
+            suf = "/%d" % draw(st.integers(0, W))
+        toks.append([n, suf])
+    return {"fam": fam, "cfg": cfg, "toks": toks or [[0x01020304 if fam == 4 else 1, ""]], "via": draw(st.sampled_from(["line", "io"]))}
+
+
+def t_text(shard, nshards, seed, ev, known, n=500):
+    return core.hyp_drive(_text_case(), check_text_pairs, n, seed, ev, known, check_name="text")
 
 
 def t_pairs(shard, nshards, seed, ev, known, n=1000):
@@ -345,6 +416,7 @@ def plan(tier):
     q = tier == "quick"
     return [
         Task("pairs", t_pairs, shards=4 if q else 16, n=1500 if q else 40000),
+        Task("text", t_text, shards=3 if q else 16, n=600 if q else 20000),
         Task("bulk", t_bulk, shards=4 if q else 16, n=2 if q else 10, size=7000 if q else 14000),
         Task("bulk_long", t_bulk, shards=2 if q else 8, n=1 if q else 4, size=30000 if q else 60000),
         Task("exh_real", t_exh_real, shards=6 if q else 16, w=10 if q else 16, ncfg=99),
